@@ -265,3 +265,32 @@ class DictWalkerV1(_DictBase, urwid.ListWalker):
         except IndexError:
             return None, None
         return self.d[k], k
+
+
+class DictWalkerLax(_DictBase, urwid.ListWalker):
+    """List Walker API version 2 in the style of the urwid examples: set_focus() only RECORDS the position (no
+    validation, no IndexError) and the inherited ListWalker.get_focus() answers (None, None) when the recorded
+    position does not exist.  Removing the focus position moves the focus to a neighbour (delete_at)."""
+
+    def __init__(self, widgets):
+        self._init(widgets)
+
+    @property
+    def focus(self):
+        return self._focus
+
+    def __getitem__(self, position):
+        return self.d[position]
+
+    def next_position(self, position):
+        return self._next_key(position)
+
+    def prev_position(self, position):
+        return self._prev_key(position)
+
+    def set_focus(self, position):
+        self._focus = position
+        self._modified()
+
+    def positions(self, reverse: bool = False):
+        return list(reversed(self.keys)) if reverse else list(self.keys)
